@@ -27,6 +27,28 @@ var subC03 = harness.NewSub("c03-marshal-vs-reference", func(c valCase, d harnes
 		return fmt.Errorf("%s: Marshal output differs from the specified encoding at octet %d (lengths %d vs %d)\n got: %s\nwant: %s\nvalue: %s",
 			c.P.Kind, i, len(got), len(want.B), hexs(got), hexs(want.B), conv.JSON(c.P))
 	}
+	if r, ok := pk.(*rtcp.ReceiverEstimatedMaximumBitrate); ok {
+		// REMB's second encoder: into a caller's buffer that is larger and not zeroed
+		buf := make([]byte, len(want.B)+8)
+		for i := range buf {
+			buf[i] = 0xA5
+		}
+		n, err := r.MarshalTo(buf)
+		if err != nil || n != len(want.B) {
+			return fmt.Errorf("REMB.MarshalTo(%d-octet buffer) = %d, %v; want %d, nil", len(buf), n, err, len(want.B))
+		}
+		if i := firstDiff(buf[:n], want.B, want.DontCare); i >= 0 {
+			return fmt.Errorf("REMB.MarshalTo into a non-zero buffer differs from the specified encoding at octet %d\n got: %s\nwant: %s", i, hexs(buf[:n]), hexs(want.B))
+		}
+		for i := n; i < len(buf); i++ {
+			if buf[i] != 0xA5 {
+				return fmt.Errorf("REMB.MarshalTo wrote past the %d octets it reports (octet %d)", n, i)
+			}
+		}
+		if n2, err := r.MarshalTo(make([]byte, len(want.B)-1)); err == nil {
+			return fmt.Errorf("REMB.MarshalTo into a buffer one octet short returned %d, nil", n2)
+		}
+	}
 	return nil
 })
 
